@@ -34,7 +34,7 @@ def raw_sighash_bad_index(script: Bytes(cls=CScript), txTo: Obj(OneOf(CTransacti
     ensures(result[0] == HASH_ONE and result[1] is not None)
 
 
-@contract('bitcoin.core.script:RawSignatureHash', name='raw_sighash_is_reference', prop=P)
+@contract('bitcoin.core.script:RawSignatureHash', name='raw_sighash_is_reference', prop=[P, 'C05'])
 def raw_sighash_is_reference(script: Bytes(cls=CScript), txTo: Obj(OneOf(CTransaction, CMutableTransaction)),
                              inIdx: Int, hashtype: Int):
     """BOUNDED: digest = original consensus algorithm for every hash-type byte; (1, error) exactly for a
@@ -86,7 +86,7 @@ _replay.GENERATORS.update({'raw_sighash_is_reference': _gen_sighash, 'sighash_ba
 
 
 # ---- bounded: the digest after the same mutable transaction object was hashed before and edited since --------------
-@contract('bitcoin.core.script:RawSignatureHash', name='raw_sighash_after_edit', prop=P)
+@contract('bitcoin.core.script:RawSignatureHash', name='raw_sighash_after_edit', prop=[P, 'C05', 'C09'])
 def raw_sighash_after_edit(script: Bytes(cls=CScript), txTo: Any, inIdx: Int, hashtype: Int):
     """BOUNDED: hashing has no memory - the digest of a mutable transaction that was hashed before (legacy and BIP143)
     and edited since is that of its current field values, and the call leaves it untouched"""
